@@ -5,6 +5,6 @@ CONSTANTS
   PropsSet = {0, 302, 21}
   Sizes <- SizesMC
   MaxOps = 4
-INVARIANT ResetIsFresh
+INVARIANTS ResetIsFresh WellFormedStartIsFresh
 VIEW view
 CHECK_DEADLOCK FALSE
